@@ -200,7 +200,8 @@ def sync_build_dir():
         return
     os.makedirs(COQ, exist_ok=True)
     subprocess.run(
-        ["rsync", "-a", "--update", "--exclude", "Gen/*.v", "--exclude", ".lock", src + "/", COQ + "/"],
+        ["rsync", "-a", "--update", "--exclude", "Gen/*", "--exclude", ".lock", "--exclude", "Makefile*",
+         "--exclude", "_CoqProject", "--exclude", ".Makefile.d", src + "/", COQ + "/"],
         check=True,
     )
 
